@@ -890,8 +890,9 @@ func c17ParsePkgsCode(s string) []c17Pkg {
 		return nil
 	}
 	for _, p := range strings.Split(s, ";") {
+		p, ex, _ := strings.Cut(p, "~")
 		pp, is, _ := strings.Cut(p, ">")
-		pk := c17Pkg{Path: c17ParsePathCode(pp)}
+		pk := c17Pkg{Path: c17ParsePathCode(pp), Extra: c17ParseExtraCode(ex)}
 		if is != "-" {
 			for _, i := range strings.Split(is, ",") {
 				ip, mj, has := strings.Cut(i, "@")
@@ -1003,6 +1004,7 @@ func runC17(c *Cfg) {
 		u    *c17Universe
 		r    *Rng
 		full bool
+		fam  bool
 	}
 	jobs := make(chan job, 64)
 	var wg sync.WaitGroup
@@ -1011,18 +1013,36 @@ func runC17(c *Cfg) {
 		go func() {
 			defer wg.Done()
 			for j := range jobs {
-				c17Case(c, j.r, j.u, j.full)
+				if j.fam {
+					c17FamCase(c, j.r, j.u)
+				} else {
+					c17Case(c, j.r, j.u, j.full)
+				}
 			}
 		}()
 	}
-	deadline := time.Now().Add(time.Duration(c.Pick(55, 720)) * time.Second)
+	// the "which files count" family (c17_fam.go): structured host/extra-file universes and
+	// random universes decorated with extra files
+	famDeadline := time.Now().Add(time.Duration(c.Pick(12, 150)) * time.Second)
+	for i, nf := 0, c.Pick(600, 12000); i < nf && time.Now().Before(famDeadline); i++ {
+		sub := r.Sub()
+		var u *c17Universe
+		if i%5 < 3 {
+			u = c17GenFam(c, sub)
+		} else {
+			u = c17GenUniverse(sub, 4, 2)
+			c17Decorate(c, sub, u)
+		}
+		jobs <- job{u: u, r: sub.Sub(), fam: true}
+	}
+	deadline := time.Now().Add(time.Duration(c.Pick(50, 720)) * time.Second)
 	for i := 0; i < n && time.Now().Before(deadline); i++ {
 		sub := r.Sub()
 		maxMods, maxVers := 6, 3
 		if i%3 == 0 {
 			maxMods, maxVers = 3, 2
 		}
-		jobs <- job{c17GenUniverse(sub, maxMods, maxVers), sub.Sub(), i%8 == 7}
+		jobs <- job{u: c17GenUniverse(sub, maxMods, maxVers), r: sub.Sub(), full: i%8 == 7}
 	}
 	close(jobs)
 	wg.Wait()
